@@ -57,4 +57,5 @@ Finish == ~done /\ kind = 0 /\ Quiet /\ (NEnv >= GenLen \/ h.pc = "returned") /\
 GenNext == PickKind \/ EnvStep \/ Internal \/ Finish
 GenSpec == GenInit /\ [][GenNext]_<<vars, done, kind>>
 DumpInv == done => PrintT(<<"BEH", ToJson(tr)>>)
+NoMid == {}
 =============================================================================
